@@ -104,14 +104,14 @@ pub fn run(rng: &mut Rng, n: usize) {
                         match compile(Lang::Anm, &mapfile, &text2) {
                             Outcome::Ok((c2, _, _)) => {
                                 let (a, b_): (Vec<Obs>, Vec<Obs>) = (c.instrs().iter().map(Obs::of).collect(), c2.instrs().iter().map(Obs::of).collect());
-                                if a != b_ { println!("ORACLE-FAIL\tintrinsic statement changes under compile+decompile+compile\t{:?} vs {:?} via {}\t{}", a, b_, one_line(&text2), input); }
+                                if a != b_ { println!("ORACLE-FAIL\tintrinsic-roundtrip: intrinsic statement changes under compile+decompile+compile\t{:?} vs {:?} via {}\t{}", a, b_, one_line(&text2), input); }
                             },
-                            Outcome::Err(d) => println!("ORACLE-FAIL\tdecompiled intrinsic statement does not recompile\t{} via {}\t{}", one_line(&d.chars().take(200).collect::<String>()), one_line(&text2), input),
-                            Outcome::Panic(p) => println!("ORACLE-FAIL\tpanic while recompiling a decompiled intrinsic statement\t{}\t{}", one_line(&p), input),
+                            Outcome::Err(d) => println!("ORACLE-FAIL\tintrinsic-roundtrip: decompiled intrinsic statement does not recompile\t{} via {}\t{}", one_line(&d.chars().take(200).collect::<String>()), one_line(&text2), input),
+                            Outcome::Panic(p) => println!("ORACLE-FAIL\tpanic: while recompiling a decompiled intrinsic statement\t{}\t{}", one_line(&p), input),
                         }
                     },
-                    Outcome::Err(d) => println!("ORACLE-FAIL\terror while decompiling a compiled intrinsic statement\t{}\t{}", one_line(&d.chars().take(200).collect::<String>()), input),
-                    Outcome::Panic(p) => println!("ORACLE-FAIL\tpanic while decompiling a compiled intrinsic statement\t{}\t{}", one_line(&p), input),
+                    Outcome::Err(d) => println!("ORACLE-FAIL\tintrinsic-roundtrip: error while decompiling a compiled intrinsic statement\t{}\t{}", one_line(&d.chars().take(200).collect::<String>()), input),
+                    Outcome::Panic(p) => println!("ORACLE-FAIL\tpanic: while decompiling a compiled intrinsic statement\t{}\t{}", one_line(&p), input),
                 }
             },
             Outcome::Err(_) => {},
